@@ -182,14 +182,14 @@ Record LInv (h : Z) (s : state) : Prop := mkLInv {
   li_k1 : forall k bs, complete (s_seg s) (s_idx s) k bs -> k <= h;
   li_store : pubok (Some h) (s_seg s) (s_idx s) (s_store s) /\ 0 <= s_store s;
   li_clast : forall v, s_clast s = Some v -> pubok (Some h) (s_seg s) (s_idx s) (v + 1) /\ 0 <= v;
-  li_pubs : forall v, In v (s_pubs s) -> 0 <= v
+  li_pubs : forall v, In v (s_pubs s) -> pubok (Some h) (s_seg s) (s_idx s) v /\ 0 <= v
 }.
 
 Record DInv (s : state) : Prop := mkDInv {
   di_acked : forall b, In b (s_acked s) -> safe None (s_seg s) (s_idx s) b;
   di_s3 : S3Inv (s_seg s) (s_idx s);
   di_store : pubok None (s_seg s) (s_idx s) (s_store s) /\ 0 <= s_store s;
-  di_pubs : forall v, In v (s_pubs s) -> 0 <= v
+  di_pubs : forall v, In v (s_pubs s) -> pubok None (s_seg s) (s_idx s) v /\ 0 <= v
 }.
 
 Definition Inv (s : state) : Prop :=
@@ -211,6 +211,8 @@ Proof.
   - intros k bs [H _]. discriminate.
   - split; [now left|lia].
 Qed.
+
+Ltac dinv I := destruct I as [li_hpos0 li_pend0 li_done0 li_done_safe0 li_nofl0 li_own0 li_pcs0 li_acked0 li_s30 li_seglt0 li_k10 li_store0 li_clast0 li_pubs0].
 
 (* ------------------------------------------------------------------ frame lemmas *)
 Lemma has_put_other k k' v m : k' <> k -> has k' (put k v m) = has k' m.
@@ -279,7 +281,7 @@ Proof.
   destruct (parse_hdr raw) as [[lod cnt]|] eqn:Ph; [|inversion H; subst; auto].
   pose proof (parse_hdr_lod _ _ _ Ph) as Lod.
   set (b := mkBatch (s_next s) lod cnt raw) in *.
-  destruct I.
+  dinv I.
   destruct (should_flush (s_cfg s) (s_buf s ++ [b]) && match s_owner s with None => true | Some _ => false end) eqn:SF;
     inversion H; subst; clear H; (split; [reflexivity|]).
   - (* threshold flush: drain *)
@@ -316,3 +318,851 @@ Proof.
     + rewrite upd_other by assumption. eapply pc_ok_buf; [apply li_pcs0|].
       intros b0 Hb. apply in_app_iff. now left.
 Qed.
+
+
+(* ------------------------------------------------------------------ EFlushBegin *)
+Lemma inv_flushbegin h s t s' :
+  s_live s = true -> LInv h s -> step s (EFlushBegin t) = Some s' -> s_live s' = true /\ LInv h s'.
+Proof.
+  intros Lv I H. cbn [step] in H. rewrite Lv in H. cbn [negb] in H.
+  destruct (s_pcs s t) eqn:Pt; try discriminate.
+  assert (Ow : s_owner s = None) by (destruct (s_owner s); [discriminate|reflexivity]).
+  rewrite Ow in H. destruct I as [li_hpos0 li_pend0 li_done0 li_done_safe0 li_nofl0 li_own0 li_pcs0 li_acked0 li_s30 li_seglt0 li_k10 li_store0 li_clast0 li_pubs0].
+  pose proof (li_nofl0 Ow) as Efl.
+  pose proof (li_pcs0 t) as Pb. rewrite Pt in Pb. cbn in Pb.
+  destruct (s_buf s) as [|b0 r] eqn:Eb.
+  - (* nothing to drain *)
+    assert (Sb : safe (Some h) (s_seg s) (s_idx s) b).
+    { destruct Pb as [Pb|Pb]; [assumption|]. rewrite Efl in Pb. cbn in Pb. contradiction. }
+    assert (forall p, pc_ok h (s_owner s) (s_fl s) (s_buf s) (s_seg s) (s_idx s) t p ->
+            s_live (set_pc s t p) = true /\ LInv h (set_pc s t p)) as K.
+    { intros p Pp. split; [exact Lv|]. constructor; cbn; try assumption.
+      - rewrite Eb. assumption.
+      - intros t0 E. rewrite Ow in E. discriminate.
+      - intros t'. destruct (Nat.eq_dec t' t) as [->|N].
+        + rewrite upd_same. exact Pp.
+        + rewrite upd_other by assumption. rewrite Eb. apply li_pcs0. }
+    destruct (s_clast s) as [v|] eqn:Ec; inversion H; subst; apply K; cbn.
+    + destruct (li_clast0 _ eq_refl). auto.
+    + auto.
+  - (* drain *)
+    inversion H; subst; clear H. split; [reflexivity|].
+    rewrite Efl in *. cbn [app] in *.
+    constructor; cbn;
+      [ assumption | rewrite app_nil_r; assumption | assumption | assumption | discriminate
+      | intros t0 E; inversion E; subst; split; [discriminate|]; rewrite upd_same; eauto
+      | | assumption | assumption | assumption | assumption | assumption | assumption | assumption ].
+    intros t'. destruct (Nat.eq_dec t' t) as [->|N].
+    + rewrite upd_same. cbn. repeat split; try discriminate. destruct Pb; [now left|now right].
+    + rewrite upd_other by assumption.
+      eapply pc_ok_step; [apply li_pcs0| | | |].
+      * eapply (not_up_others h s t); [rewrite Efl, Eb; exact li_pcs0|now left|exact N].
+      * auto.
+      * auto.
+      * intros b1 Hb. left. rewrite app_nil_r. exact Hb.
+Qed.
+
+
+
+Lemma complete_put_seg seg idx h fl k bs :
+  complete (put h fl seg) idx k bs -> (k = h /\ bs = fl) \/ (k <> h /\ complete seg idx k bs).
+Proof.
+  intros [A B]. destruct (Z.eq_dec k h) as [->|N].
+  - rewrite lookup_put_same in A. inversion A. now left.
+  - rewrite lookup_put_other in A by assumption. right. split; [assumption|]. split; assumption.
+Qed.
+
+Lemma complete_put_idx seg idx h fl k bs :
+  complete seg (put h fl idx) k bs -> k = h \/ (k <> h /\ complete seg idx k bs).
+Proof.
+  intros [A B]. destruct (Z.eq_dec k h) as [->|N]; [now left|].
+  rewrite has_put_other in B by assumption. right. split; [assumption|]. split; assumption.
+Qed.
+
+(* the owner's upload key is the frontier h; objects below it are never touched *)
+Lemma s3inv_put_seg h seg idx fl :
+  S3Inv seg idx -> 0 <= h -> fl <> [] -> chain h fl (last_off fl + 1) ->
+  (forall k bs, complete seg idx k bs -> k < h -> last_off bs < h) ->
+  (forall k bs, complete seg idx k bs -> k <= h) ->
+  S3Inv (put h fl seg) idx /\
+  (forall k bs, complete (put h fl seg) idx k bs -> k < h -> last_off bs < h) /\
+  (forall k bs, complete (put h fl seg) idx k bs -> k <= h).
+Proof.
+  intros [W O] P N C L K. split; [constructor|split].
+  - intros k bs A. destruct (Z.eq_dec k h) as [->|D].
+    + rewrite lookup_put_same in A. inversion A; subst. auto.
+    + rewrite lookup_put_other in A by assumption. auto.
+  - intros k bs k' bs' A B Lt.
+    apply complete_put_seg in A. apply complete_put_seg in B.
+    destruct A as [[-> ->]|[Na A]], B as [[-> ->]|[Nb B]].
+    + lia.
+    + specialize (K _ _ B). lia.
+    + apply (L _ _ A). lia.
+    + eapply O; eauto.
+  - intros k bs A Lt. apply complete_put_seg in A. destruct A as [[-> ->]|[Na A]]; [lia|]. eapply L; eauto.
+  - intros k bs A. apply complete_put_seg in A. destruct A as [[-> ->]|[Na A]]; [lia|]. eapply K; eauto.
+Qed.
+
+Lemma s3inv_put_idx h seg idx fl :
+  S3Inv seg idx ->
+  (forall k bs, complete seg idx k bs -> k < h -> last_off bs < h) ->
+  (forall k bs, complete seg idx k bs -> k <= h) ->
+  S3Inv seg (put h fl idx) /\
+  (forall k bs, complete seg (put h fl idx) k bs -> k < h -> last_off bs < h) /\
+  (forall k bs, complete seg (put h fl idx) k bs -> k <= h).
+Proof.
+  intros [W O] L K. split; [constructor|split].
+  - exact W.
+  - intros k bs k' bs' A B Lt.
+    apply complete_put_idx in A. apply complete_put_idx in B.
+    destruct A as [->|[Na A]], B as [->|[Nb B]].
+    + lia.
+    + specialize (K _ _ B). lia.
+    + apply (L _ _ A). lia.
+    + eapply O; eauto.
+  - intros k bs A Lt. apply complete_put_idx in A. destruct A as [->|[Na A]]; [lia|]. eapply L; eauto.
+  - intros k bs A. apply complete_put_idx in A. destruct A as [->|[Na A]]; [lia|]. eapply K; eauto.
+Qed.
+
+Lemma fl_chain h fl buf n : chain h (fl ++ buf) n -> fl <> [] -> chain h fl (last_off fl + 1) /\ art_key fl = h.
+Proof.
+  intros C N. apply chain_app in C as (mid & C1 & C2).
+  destruct (chain_last _ _ _ C1 N) as (A & B & D). subst mid. auto.
+Qed.
+
+(* ------------------------------------------------------------------ EUpSeg / EUpIdx *)
+Lemma inv_upseg h s t ok s' :
+  s_live s = true -> LInv h s -> step s (EUpSeg t ok) = Some s' -> s_live s' = true /\ LInv h s'.
+Proof.
+  intros Lv I H. cbn [step] in H. rewrite Lv in H. cbn [negb] in H.
+  destruct (s_pcs s t) as [| |o b sg ix| |] eqn:Pt; try discriminate.
+  destruct sg; try discriminate. inversion H; subst; clear H. split; [reflexivity|].
+  dinv I.
+  pose proof (li_pcs0 t) as Pb. rewrite Pt in Pb. cbn in Pb. destruct Pb as (Ow & _ & Pix & Pin).
+  destruct (li_own0 _ Ow) as (Nfl & _).
+  destruct (fl_chain _ _ _ _ li_pend0 Nfl) as (Cfl & Key).
+  assert (forall t', t' <> t -> forall o b sg ix, s_pcs s t' <> PUp o b sg ix) as NU.
+  { eapply not_up_others; eauto. }
+  destruct ok; cbn [up_of].
+  - rewrite Key.
+    destruct (s3inv_put_seg h _ _ _ li_s30 li_hpos0 Nfl Cfl li_seglt0 li_k10) as (S3 & SL & K1).
+    constructor; cbn;
+      [ assumption | assumption | assumption
+      | intros b0 Hb; apply safe_put_seg; [lia|auto]
+      | assumption
+      | intros t0 E; destruct (li_own0 _ E) as (A & _); split; [assumption|];
+        rewrite Ow in E; inversion E; subst; rewrite upd_same; eauto
+      |
+      | intros b0 Hb; apply safe_put_seg; [lia|auto]
+      | exact S3 | exact SL | exact K1
+      | destruct li_store0; split; [apply pubok_put_seg; [lia|assumption]|assumption]
+      | intros v E; destruct (li_clast0 _ E); split; [apply pubok_put_seg; [lia|assumption]|assumption]
+      | intros v E; destruct (li_pubs0 _ E); split; [apply pubok_put_seg; [lia|assumption]|assumption] ].
+    intros t'. destruct (Nat.eq_dec t' t) as [->|N].
+    + rewrite upd_same. cbn. repeat split; auto.
+      * intros _. apply lookup_put_same.
+      * destruct Pin; [left; apply safe_put_seg; [lia|assumption]|now right].
+    + rewrite upd_other by assumption.
+      eapply pc_ok_step; [apply li_pcs0| apply NU; assumption | | | ].
+      * intros b0 Hb; apply safe_put_seg; [lia|auto].
+      * intros v Hv; apply pubok_put_seg; [lia|auto].
+      * auto.
+  - constructor; cbn; try assumption.
+    + intros t0 E; destruct (li_own0 _ E) as (A & _); split; [assumption|].
+      rewrite Ow in E; inversion E; subst; rewrite upd_same; eauto.
+    + intros t'. destruct (Nat.eq_dec t' t) as [->|N].
+      * rewrite upd_same. cbn. repeat split; auto. discriminate.
+      * rewrite upd_other by assumption. apply li_pcs0.
+Qed.
+
+Lemma inv_upidx h s t ok s' :
+  s_live s = true -> LInv h s -> step s (EUpIdx t ok) = Some s' -> s_live s' = true /\ LInv h s'.
+Proof.
+  intros Lv I H. cbn [step] in H. rewrite Lv in H. cbn [negb] in H.
+  destruct (s_pcs s t) as [| |o b sg ix| |] eqn:Pt; try discriminate.
+  destruct ix; try discriminate. inversion H; subst; clear H. split; [reflexivity|].
+  dinv I.
+  pose proof (li_pcs0 t) as Pb. rewrite Pt in Pb. cbn in Pb. destruct Pb as (Ow & Psg & _ & Pin).
+  destruct (li_own0 _ Ow) as (Nfl & _).
+  destruct (fl_chain _ _ _ _ li_pend0 Nfl) as (Cfl & Key).
+  assert (forall t', t' <> t -> forall o b sg ix, s_pcs s t' <> PUp o b sg ix) as NU.
+  { eapply not_up_others; eauto. }
+  destruct ok; cbn [up_of].
+  - rewrite Key.
+    destruct (s3inv_put_idx h _ _ (s_fl s) li_s30 li_seglt0 li_k10) as (S3 & SL & K1).
+    constructor; cbn;
+      [ assumption | assumption | assumption
+      | intros b0 Hb; apply safe_put_idx; auto
+      | assumption
+      | intros t0 E; destruct (li_own0 _ E) as (A & _); split; [assumption|];
+        rewrite Ow in E; inversion E; subst; rewrite upd_same; eauto
+      |
+      | intros b0 Hb; apply safe_put_idx; auto
+      | exact S3 | exact SL | exact K1
+      | destruct li_store0; split; [apply pubok_put_idx; assumption|assumption]
+      | intros v E; destruct (li_clast0 _ E); split; [apply pubok_put_idx; assumption|assumption]
+      | intros v E; destruct (li_pubs0 _ E); split; [apply pubok_put_idx; assumption|assumption] ].
+    intros t'. destruct (Nat.eq_dec t' t) as [->|N].
+    + rewrite upd_same. cbn. repeat split; auto.
+      * intros _. apply has_put_same.
+      * destruct Pin; [left; apply safe_put_idx; assumption|now right].
+    + rewrite upd_other by assumption.
+      eapply pc_ok_step; [apply li_pcs0| apply NU; assumption | | | ].
+      * intros b0 Hb; apply safe_put_idx; auto.
+      * intros v Hv; apply pubok_put_idx; auto.
+      * auto.
+  - constructor; cbn; try assumption.
+    + intros t0 E; destruct (li_own0 _ E) as (A & _); split; [assumption|].
+      rewrite Ow in E; inversion E; subst; rewrite upd_same; eauto.
+    + intros t'. destruct (Nat.eq_dec t' t) as [->|N].
+      * rewrite upd_same. cbn. repeat split; auto. discriminate.
+      * rewrite upd_other by assumption. apply li_pcs0.
+Qed.
+
+(* ------------------------------------------------------------------ ECommit *)
+Lemma inv_commit h s t s' :
+  s_live s = true -> LInv h s -> step s (ECommit t) = Some s' ->
+  s_live s' = true /\ exists h', h <= h' /\ LInv h' s'.
+Proof.
+  intros Lv I H. cbn [step] in H. rewrite Lv in H. cbn [negb] in H.
+  destruct (s_pcs s t) as [| |o b sg ix| |] eqn:Pt; try discriminate.
+  destruct sg; try discriminate. destruct ix; try discriminate.
+  inversion H; subst; clear H. split; [reflexivity|].
+  dinv I.
+  pose proof (li_pcs0 t) as Pb. rewrite Pt in Pb. cbn in Pb. destruct Pb as (Ow & Psg & Pix & Pin).
+  specialize (Psg eq_refl). specialize (Pix eq_refl).
+  destruct (li_own0 _ Ow) as (Nfl & _).
+  destruct (fl_chain _ _ _ _ li_pend0 Nfl) as (Cfl & Key).
+  apply chain_app in li_pend0 as (mid & C1 & C2).
+  destruct (chain_last _ _ _ C1 Nfl) as (_ & Hle & Hmid). subst mid.
+  set (h' := last_off (s_fl s) + 1) in *.
+  assert (h < h') as Hlt by (unfold h'; lia).
+  assert (forall b0, In b0 (s_fl s) -> safe (Some h') (s_seg s) (s_idx s) b0) as Sfl.
+  { intros b0 Hb. exists h, (s_fl s). cbn. auto. }
+  assert (pubok (Some h') (s_seg s) (s_idx s) h') as Ph.
+  { right. exists h, (s_fl s). cbn. repeat split; auto. unfold h'. lia. }
+  assert (forall t', t' <> t -> forall o b sg ix, s_pcs s t' <> PUp o b sg ix) as NU.
+  { eapply not_up_others; eauto. }
+  exists h'. split; [lia|].
+  constructor; cbn;
+    [ lia | exact C2
+    | apply chain_app; exists h; split; assumption
+    | intros b0 Hb; apply in_app_iff in Hb as [Hb|Hb]; [eapply safe_mono; [|apply li_done_safe0; assumption]; lia|auto]
+    | reflexivity
+    | discriminate
+    |
+    | intros b0 Hb; eapply safe_mono; [|apply li_acked0; assumption]; lia
+    | assumption
+    | intros k bs A Lt; pose proof (li_k10 _ _ A) as Kk; destruct (Z.eq_dec k h) as [->|Nk];
+      [ destruct A as [A _]; rewrite Psg in A; inversion A; subst; unfold h'; lia
+      | assert (last_off bs < h) by (apply (li_seglt0 _ _ A); lia); lia ]
+    | intros k bs A; pose proof (li_k10 _ _ A); lia
+    | destruct li_store0; split; [eapply pubok_mono; [|eassumption]; lia|assumption]
+    | intros v E; inversion E; subst; split; [exact Ph|lia]
+    | intros v E; destruct (li_pubs0 _ E); split; [eapply pubok_mono; [|eassumption]; lia|assumption] ].
+  intros t'. destruct (Nat.eq_dec t' t) as [->|N].
+  - rewrite upd_same. cbn. repeat split; [|exact Ph|lia].
+    destruct Pin as [Pin|Pin]; [eapply safe_mono; [|eassumption]; lia|auto].
+  - rewrite upd_other by assumption.
+    eapply pc_ok_step; [apply li_pcs0| apply NU; assumption | | | ].
+    + intros b0 Hb. eapply safe_mono; [|eassumption]. lia.
+    + intros v Hv. eapply pubok_mono; [|eassumption]. lia.
+    + intros b0 Hb. apply in_app_iff in Hb as [Hb|Hb]; [right; auto|left; exact Hb].
+Qed.
+
+(* ------------------------------------------------------------------ EFailReset *)
+Lemma inv_failreset h s t s' :
+  s_live s = true -> LInv h s -> step s (EFailReset t) = Some s' -> s_live s' = true /\ LInv h s'.
+Proof.
+  intros Lv I H. cbn [step] in H. rewrite Lv in H. cbn [negb] in H.
+  destruct (s_pcs s t) as [| |o b sg ix| |] eqn:Pt; try discriminate.
+  assert (s' = mkState (s_cfg s) true (s_next s) (s_fl s ++ s_buf s) None [] (s_clast s)
+                       (s_seg s) (s_idx s) (s_store s) (upd (s_pcs s) t (PRet b false))
+                       (s_start s) (s_done s) (s_acked s) (s_pubs s)) as ->.
+  { destruct sg, ix; try discriminate; inversion H; reflexivity. }
+  clear H. split; [reflexivity|].
+  dinv I.
+  pose proof (li_pcs0 t) as Pb. rewrite Pt in Pb. cbn in Pb. destruct Pb as (Ow & _).
+  assert (forall t', t' <> t -> forall o b sg ix, s_pcs s t' <> PUp o b sg ix) as NU.
+  { eapply not_up_others; eauto. }
+  constructor; cbn; try assumption.
+  - reflexivity.
+  - discriminate.
+  - intros t'. destruct (Nat.eq_dec t' t) as [->|N].
+    + rewrite upd_same. cbn. discriminate.
+    + rewrite upd_other by assumption.
+      eapply pc_ok_step; [apply li_pcs0| apply NU; assumption | auto | auto | ].
+      intros b0 Hb. left. exact Hb.
+Qed.
+
+(* ------------------------------------------------------------------ ECallback / ERespond *)
+Lemma inv_callback h s t ok s' :
+  s_live s = true -> LInv h s -> step s (ECallback t ok) = Some s' -> s_live s' = true /\ LInv h s'.
+Proof.
+  intros Lv I H. cbn [step] in H. rewrite Lv in H. cbn [negb] in H.
+  destruct (s_pcs s t) as [| | |o b v|] eqn:Pt; try discriminate.
+  inversion H; subst; clear H. split; [reflexivity|].
+  dinv I.
+  pose proof (li_pcs0 t) as Pb. rewrite Pt in Pb. cbn in Pb. destruct Pb as (Sb & Pv & Vp).
+  constructor; cbn; try assumption.
+  - intros t0 E. destruct (li_own0 _ E) as (A & o' & b' & sg & ix & B). split; [assumption|].
+    rewrite upd_other; [eauto|]. intros ->. congruence.
+  - intros t'. destruct (Nat.eq_dec t' t) as [->|N].
+    + rewrite upd_same. destruct o; cbn; auto.
+    + rewrite upd_other by assumption. apply li_pcs0.
+  - destruct ok; [split; [assumption|lia]|assumption].
+  - destruct ok; [|assumption]. intros x [<-|Hx]; [split; [assumption|lia]|auto].
+Qed.
+
+Lemma inv_respond h s t s' :
+  s_live s = true -> LInv h s -> step s (ERespond t) = Some s' -> s_live s' = true /\ LInv h s'.
+Proof.
+  intros Lv I H. cbn [step] in H. rewrite Lv in H. cbn [negb] in H.
+  destruct (s_pcs s t) as [| | | |b ok] eqn:Pt; try discriminate.
+  inversion H; subst; clear H. split; [reflexivity|].
+  dinv I.
+  pose proof (li_pcs0 t) as Pb. rewrite Pt in Pb. cbn in Pb.
+  constructor; cbn; try assumption.
+  - intros t0 E. destruct (li_own0 _ E) as (A & o' & b' & sg & ix & B). split; [assumption|].
+    rewrite upd_other; [eauto|]. intros ->. congruence.
+  - intros t'. destruct (Nat.eq_dec t' t) as [->|N].
+    + rewrite upd_same. exact I.
+    + rewrite upd_other by assumption. apply li_pcs0.
+  - destruct ok; [|assumption]. intros b0 Hb. apply in_app_iff in Hb as [Hb|[<-|[]]]; auto.
+Qed.
+
+(* ------------------------------------------------------------------ ECrash *)
+Lemma inv_crash h s s' :
+  s_live s = true -> LInv h s -> step s ECrash = Some s' -> s_live s' = false /\ DInv s'.
+Proof.
+  intros Lv I H. cbn [step] in H. rewrite Lv in H. cbn [negb] in H.
+  inversion H; subst; clear H. split; [reflexivity|]. dinv I.
+  constructor; cbn; try assumption.
+  - intros b Hb. eapply safe_none. eauto.
+  - destruct li_store0. split; [eapply pubok_none; eauto|assumption].
+  - intros v E. destruct (li_pubs0 _ E). split; [eapply pubok_none; eauto|assumption].
+Qed.
+
+
+(* ------------------------------------------------------------------ RestoreFromS3 *)
+Lemma scan_spec next seg idx keys : forall best r,
+  restore_scan next seg idx keys best = Some r ->
+  (forall k0 l0, best = Some (k0, l0) -> exists bs, complete seg idx k0 bs /\ l0 = last_off bs) ->
+  (forall kb lb, r = Some (kb, lb) -> exists bs, complete seg idx kb bs /\ lb = last_off bs) /\
+  (forall k bs, In k keys -> complete seg idx k bs -> exists kb lb, r = Some (kb, lb) /\ k <= kb) /\
+  (forall k0 l0, best = Some (k0, l0) -> exists kb lb, r = Some (kb, lb) /\ k0 <= kb).
+Proof.
+  induction keys as [|k keys IH]; intros best r H B; cbn [restore_scan] in H.
+  - inversion H; subst. split; [exact B|]. split; [intros ? ? []|].
+    intros k0 l0 E. exists k0, l0. split; [assumption|lia].
+  - destruct (lookup k seg) as [bs|] eqn:Lk.
+    2:{ destruct (IH _ _ H B) as (R1 & R2 & R3). split; [exact R1|]. split; [|exact R3].
+        intros k1 bs1 [<-|I] [C1 C2]; [congruence|]. apply (R2 k1 bs1 I). split; assumption. }
+    destruct (has k idx) eqn:Hk.
+    + set (best' := match best with
+                    | Some (k0, _) => if k0 <? k then Some (k, last_off bs) else best
+                    | None => Some (k, last_off bs) end) in *.
+      assert (B' : forall k0 l0, best' = Some (k0, l0) -> exists bs0, complete seg idx k0 bs0 /\ l0 = last_off bs0).
+      { intros k0 l0 E. unfold best' in E. destruct best as [[kk ll]|].
+        - destruct (kk <? k); [inversion E; subst; exists bs; split; [split; assumption|reflexivity]|apply B; assumption].
+        - inversion E; subst. exists bs. split; [split; assumption|reflexivity]. }
+      destruct (IH _ _ H B') as (R1 & R2 & R3). split; [exact R1|]. split.
+      * intros k1 bs1 [<-|I] C.
+        -- unfold best' in R3. destruct best as [[kk ll]|].
+           ++ destruct (kk <? k) eqn:E.
+              ** destruct (R3 _ _ eq_refl) as (kb & lb & -> & L). exists kb, lb. split; [reflexivity|lia].
+              ** destruct (R3 _ _ eq_refl) as (kb & lb & -> & L). exists kb, lb. split; [reflexivity|lia].
+           ++ destruct (R3 _ _ eq_refl) as (kb & lb & -> & L). exists kb, lb. split; [reflexivity|lia].
+        -- apply (R2 k1 bs1 I C).
+      * intros k0 l0 E. subst best. unfold best' in R3. destruct (k0 <? k) eqn:E.
+        -- destruct (R3 _ _ eq_refl) as (kb & lb & -> & L). exists kb, lb. split; [reflexivity|lia].
+        -- apply (R3 _ _ eq_refl).
+    + destruct (next <=? k); [|discriminate].
+      destruct (IH _ _ H B) as (R1 & R2 & R3). split; [exact R1|]. split; [|exact R3].
+      intros k1 bs1 [<-|I] [C1 C2]; [congruence|]. apply (R2 k1 bs1 I). split; assumption.
+Qed.
+
+Lemma restore_spec next seg idx :
+  match restore next seg idx with
+  | RErr => True
+  | RNone => forall k bs, ~ complete seg idx k bs
+  | RLast l => exists kb bsb, complete seg idx kb bsb /\ l = last_off bsb /\
+                              forall k bs, complete seg idx k bs -> k <= kb
+  end.
+Proof.
+  unfold restore. destruct (restore_scan next seg idx (map fst seg) None) as [[[kb lb]|]|] eqn:E; [| |exact I].
+  - destruct (scan_spec _ _ _ _ _ _ E) as (R1 & R2 & _); [discriminate|].
+    destruct (R1 _ _ eq_refl) as (bsb & C & ->). exists kb, bsb. repeat split; try apply C.
+    intros k bs Ck. destruct (R2 k bs) as (kb' & lb' & Eq & L); [eapply lookup_keys; apply Ck|exact Ck|].
+    inversion Eq; subst. exact L.
+  - destruct (scan_spec _ _ _ _ _ _ E) as (_ & R2 & _); [discriminate|].
+    intros k bs Ck. destruct (R2 k bs) as (kb' & lb' & Eq & L); [eapply lookup_keys; apply Ck|exact Ck|discriminate].
+Qed.
+
+Lemma inv_restart s ok s' :
+  s_live s = false -> DInv s -> step s (ERestart ok) = Some s' -> Inv s'.
+Proof.
+  intros Lv [Da [W O] [Ds Dn] Dp] H. cbn [step] in H. rewrite Lv in H.
+  pose proof (restore_spec (s_store s) (s_seg s) (s_idx s)) as R.
+  destruct (restore (s_store s) (s_seg s) (s_idx s)) as [| |l] eqn:E.
+  - inversion H; subst. unfold Inv. rewrite Lv. constructor; auto. constructor; auto.
+  - inversion H; subst; clear H. unfold Inv; cbn. exists (s_store s).
+    assert (forall b, ~ safe None (s_seg s) (s_idx s) b) as NS.
+    { intros b (k & bs & A & B & C & _). apply (R k bs). split; assumption. }
+    constructor; cbn; try tauto; try discriminate; try lia.
+    + intros b Hb. exfalso. eapply NS. eauto.
+    + constructor; assumption.
+    + intros k bs C. exfalso. eapply R; eauto.
+    + intros k bs C. exfalso. eapply R; eauto.
+    + split; [|assumption]. destruct Ds as [Ds|(k & bs & A & B & _)]; [now left|]. exfalso. apply (R k bs). split; assumption.
+    + intros v Ev. destruct (Dp _ Ev) as [[Dv|(k & bs & A & B & _)] Dv0]; [split; [now left|assumption]|]. exfalso. apply (R k bs). split; assumption.
+  - destruct R as (kb & bsb & Cb & -> & Mx).
+    destruct (W _ _ (proj1 Cb)) as (Nb & Chb & Kpos).
+    destruct (chain_last _ _ _ Chb Nb) as (_ & Kle & _).
+    set (l := last_off bsb) in *.
+    set (h' := if s_store s <=? l then l + 1 else s_store s) in *.
+    assert (l < h') as Lh by (unfold h'; destruct (s_store s <=? l) eqn:Q; lia).
+    assert (s_store s <= h') as Sh by (unfold h'; destruct (s_store s <=? l) eqn:Q; lia).
+    assert (forall k bs, complete (s_seg s) (s_idx s) k bs -> k < h' /\ last_off bs < h') as CB.
+    { intros k bs C. pose proof (Mx _ _ C) as Lk. split; [lia|].
+      destruct (Z.eq_dec k kb) as [->|Nk].
+      - destruct C as [C _], Cb as [Cb _]. rewrite C in Cb. inversion Cb; subst. exact Lh.
+      - assert (last_off bs < kb) by (eapply O; eauto; lia). lia. }
+    assert (forall b, safe None (s_seg s) (s_idx s) b -> safe (Some h') (s_seg s) (s_idx s) b) as SS.
+    { intros b (k & bs & A & B & C & _). exists k, bs. repeat split; auto. cbn. apply (CB k bs). split; assumption. }
+    assert (forall v, pubok None (s_seg s) (s_idx s) v -> pubok (Some h') (s_seg s) (s_idx s) v) as PP.
+    { intros v [Hv|(k & bs & A & B & _ & D)]; [now left|right]. exists k, bs. repeat split; auto. cbn. apply (CB k bs). split; assumption. }
+    assert (pubok (Some h') (s_seg s) (s_idx s) (l + 1)) as PL.
+    { right. exists kb, bsb. destruct Cb. repeat split; auto; cbn; lia. }
+    inversion H; subst; clear H. unfold Inv; cbn. exists h'.
+    constructor; cbn; try tauto; try discriminate; try lia.
+    + intros b Hb. auto.
+    + constructor; assumption.
+    + intros k bs C _. apply (CB k bs C).
+    + intros k bs C. destruct (CB k bs C). lia.
+    + destruct ((s_store s <=? l) && ok) eqn:Q; [split; [exact PL|lia]|split; [auto|assumption]].
+    + intros v Ev. inversion Ev; subst. split; [exact PL|lia].
+    + destruct ((s_store s <=? l) && ok).
+      * intros v [<-|Hv]; [split; [exact PL|lia]|]. destruct (Dp _ Hv). split; auto.
+      * intros v Hv. destruct (Dp _ Hv). split; auto.
+Qed.
+
+Lemma inv_restartfault s s' :
+  s_live s = false -> DInv s -> step s ERestartFault = Some s' -> Inv s'.
+Proof.
+  intros Lv D H. cbn [step] in H. rewrite Lv in H. inversion H; subst. unfold Inv. now rewrite Lv.
+Qed.
+
+
+(* ------------------------------------------------------------------ C06: no offset reuse *)
+Lemma linv_bounds h s : LInv h s ->
+  h <= s_next s /\
+  (forall b, safe (Some h) (s_seg s) (s_idx s) b -> b_last b < h) /\
+  (forall v, pubok (Some h) (s_seg s) (s_idx s) v -> v <= h).
+Proof.
+  intros I. dinv I. split; [eapply chain_le; eauto|]. split.
+  - intros b (k & bs & A & B & C & D). cbn in D.
+    destruct (s3_wf _ _ li_s30 _ _ A) as (_ & Ch & _).
+    destruct (chain_in_last _ _ _ _ Ch B) as (_ & L & _).
+    pose proof (li_seglt0 k bs (conj A C) D). lia.
+  - intros v P. eapply pubok_le; eauto.
+Qed.
+
+(* ------------------------------------------------------------------ the invariant holds on every run *)
+Lemma step_live_only s e s' : s_live s = false -> step s e = Some s' ->
+  e = ERestartFault \/ exists ok, e = ERestart ok.
+Proof.
+  intros Lv H. destruct e; cbn [step] in H; rewrite Lv in H; cbn in H; try discriminate; eauto.
+Qed.
+
+Lemma step_inv s e s' : Inv s -> step s e = Some s' -> Inv s'.
+Proof.
+  intros I H. unfold Inv in I. destruct (s_live s) eqn:Lv.
+  - destruct I as (h & I).
+    assert (forall h', s_live s' = true /\ LInv h' s' -> Inv s') as K.
+    { intros h' [L J]. unfold Inv. rewrite L. eauto. }
+    destruct e.
+    + eapply K, inv_append; eauto.
+    + eapply K, inv_flushbegin; eauto.
+    + eapply K, inv_upseg; eauto.
+    + eapply K, inv_upidx; eauto.
+    + destruct (inv_commit _ _ _ _ Lv I H) as (L & h' & _ & J). unfold Inv. rewrite L. eauto.
+    + eapply K, inv_failreset; eauto.
+    + eapply K, inv_callback; eauto.
+    + eapply K, inv_respond; eauto.
+    + destruct (inv_crash _ _ _ Lv I H) as (L & J). unfold Inv. now rewrite L.
+    + cbn [step] in H. rewrite Lv in H. discriminate.
+    + cbn [step] in H. rewrite Lv in H. discriminate.
+  - destruct (step_live_only _ _ _ Lv H) as [->|[ok ->]].
+    + eapply inv_restartfault; eauto.
+    + eapply inv_restart; eauto.
+Qed.
+
+Lemma run_inv evs : forall s s', Inv s -> run s evs = Some s' -> Inv s'.
+Proof.
+  induction evs as [|e evs IH]; intros s s' I H; cbn [run] in H.
+  - inversion H; subst; exact I.
+  - destruct (step s e) as [s1|] eqn:E; [|discriminate]. eapply IH; [|exact H]. eapply step_inv; eauto.
+Qed.
+
+Theorem reach_inv c evs s : run (init c) evs = Some s -> Inv s.
+Proof. apply run_inv, init_inv. Qed.
+
+Lemma run_app evs1 : forall evs2 s s', run s (evs1 ++ evs2) = Some s' ->
+  exists s1, run s evs1 = Some s1 /\ run s1 evs2 = Some s'.
+Proof.
+  induction evs1 as [|e evs1 IH]; intros evs2 s s' H; cbn [app run] in *.
+  - eauto.
+  - destruct (step s e) as [s0|]; [|discriminate]. apply IH. exact H.
+Qed.
+
+(* acknowledgements are never retracted *)
+Lemma step_acked_incl s e s' : step s e = Some s' -> incl (s_acked s) (s_acked s').
+Proof.
+  intros H b Hb. destruct e; cbn [step] in H.
+  all: try (destruct (negb (s_live s)); [discriminate|]).
+  all: try (destruct (s_live s); [discriminate|]).
+  - destruct (s_pcs s t); try discriminate. destruct (parse_hdr raw) as [[? ?]|]; [|inversion H; subst; exact Hb].
+    destruct (should_flush _ _ && _); inversion H; subst; exact Hb.
+  - destruct (s_pcs s t); try discriminate. destruct (s_owner s); try discriminate.
+    destruct (s_buf s); [destruct (s_clast s)|]; inversion H; subst; exact Hb.
+  - destruct (s_pcs s t) as [| |? ? sg ?| |]; try discriminate. destruct sg; try discriminate. inversion H; subst; exact Hb.
+  - destruct (s_pcs s t) as [| |? ? ? ix| |]; try discriminate. destruct ix; try discriminate. inversion H; subst; exact Hb.
+  - destruct (s_pcs s t) as [| |? ? sg ix| |]; try discriminate. destruct sg; try discriminate. destruct ix; try discriminate. inversion H; subst; exact Hb.
+  - destruct (s_pcs s t) as [| |? ? sg ix| |]; try discriminate. destruct sg, ix; try discriminate; inversion H; subst; exact Hb.
+  - destruct (s_pcs s t); try discriminate. inversion H; subst; exact Hb.
+  - destruct (s_pcs s t) as [| | | |? ok]; try discriminate. inversion H; subst. cbn. destruct ok; [apply in_app_iff; now left|exact Hb].
+  - inversion H; subst; exact Hb.
+  - destruct (restore _ _ _); inversion H; subst; exact Hb.
+  - inversion H; subst; exact Hb.
+Qed.
+
+Lemma run_acked_incl evs : forall s s', run s evs = Some s' -> incl (s_acked s) (s_acked s').
+Proof.
+  induction evs as [|e evs IH]; intros s s' H; cbn [run] in H.
+  - inversion H; subst. apply incl_refl.
+  - destruct (step s e) as [s1|] eqn:E; [|discriminate].
+    eapply incl_tran; [eapply step_acked_incl; eauto|eapply IH; eauto].
+Qed.
+
+(* ------------------------------------------------------------------ C01 *)
+Lemma inv_acked_durable s : Inv s -> forall b, In b (s_acked s) -> durable s b.
+Proof.
+  unfold Inv. intros I b Hb. destruct (s_live s).
+  - destruct I as (h & I). eapply durable_of_safe. apply (li_acked _ _ I). exact Hb.
+  - eapply durable_of_safe. apply (di_acked _ I). exact Hb.
+Qed.
+
+Theorem acked_durable c evs s :
+  run (init c) evs = Some s -> forall b, In b (s_acked s) -> durable s b.
+Proof. intros H. apply inv_acked_durable. eapply reach_inv; eauto. Qed.
+
+(* whatever was acknowledged before a crash is durable in every later state, in
+   particular after any restart (with any restore faults in between) *)
+Theorem acked_survives c evs1 evs2 s1 s :
+  run (init c) evs1 = Some s1 -> run s1 evs2 = Some s ->
+  forall b, In b (s_acked s1) -> durable s b.
+Proof.
+  intros H1 H2 b Hb. apply inv_acked_durable.
+  - eapply run_inv; [|exact H2]. eapply reach_inv; eauto.
+  - eapply run_acked_incl; eauto.
+Qed.
+
+(* ------------------------------------------------------------------ C02 *)
+Theorem assigned_chain c evs s :
+  run (init c) evs = Some s -> s_live s = true -> chain (s_start s) (log s) (s_next s).
+Proof.
+  intros H Lv. pose proof (reach_inv _ _ _ H) as I. unfold Inv in I. rewrite Lv in I.
+  destruct I as (h & I). unfold log. apply chain_app. exists h. split; [apply (li_done _ _ I)|apply (li_pend _ _ I)].
+Qed.
+
+Theorem no_gap c evs s :
+  run (init c) evs = Some s -> s_live s = true ->
+  forall b, In b (log s) -> durable s b \/ In b (s_fl s ++ s_buf s).
+Proof.
+  intros H Lv b Hb. pose proof (reach_inv _ _ _ H) as I. unfold Inv in I. rewrite Lv in I.
+  destruct I as (h & I). unfold log in Hb. apply in_app_iff in Hb as [Hb|Hb]; [left|now right].
+  eapply durable_of_safe. apply (li_done_safe _ _ I). exact Hb.
+Qed.
+
+(* an accepted append extends the log by one batch whose base is the previous end *)
+Theorem append_extends c evs s t raw s' lod cnt :
+  run (init c) evs = Some s -> step s (EAppend t raw) = Some s' -> parse_hdr raw = Some (lod, cnt) ->
+  log s' = log s ++ [mkBatch (s_next s) lod cnt raw] /\ s_next s' = s_next s + lod + 1 /\ 0 <= lod.
+Proof.
+  intros H St Ph. pose proof (reach_inv _ _ _ H) as I. unfold Inv in I.
+  cbn [step] in St. destruct (s_live s) eqn:Lv; [|discriminate]. cbn [negb] in St.
+  destruct I as (h & I).
+  destruct (s_pcs s t); try discriminate. rewrite Ph in St.
+  split; [|split; [|eapply parse_hdr_lod; eauto]].
+  - destruct (should_flush _ _ && _) eqn:SF; inversion St; subst; unfold log; cbn.
+    + apply andb_true_iff in SF as [_ SF].
+      assert (Ow : s_owner s = None) by (destruct (s_owner s); [discriminate|reflexivity]).
+      rewrite (li_nofl _ _ I Ow). cbn. rewrite app_nil_r. now rewrite app_assoc.
+    + now rewrite !app_assoc.
+  - destruct (should_flush _ _ && _); inversion St; subst; reflexivity.
+Qed.
+
+Theorem rejected_append_no_effect s t raw s' :
+  step s (EAppend t raw) = Some s' -> parse_hdr raw = None -> s' = s.
+Proof.
+  intros St Ph. cbn [step] in St. destruct (negb (s_live s)); [discriminate|].
+  destruct (s_pcs s t); try discriminate. rewrite Ph in St. now inversion St.
+Qed.
+
+Lemma patched_base b : firstn 8 (b_bytes b) = be64 (b_base b).
+Proof. reflexivity. Qed.
+
+Theorem response_base c evs s :
+  run (init c) evs = Some s -> forall b, In b (s_acked s) ->
+  durable s b /\ firstn 8 (b_bytes b) = be64 (b_base b).
+Proof. intros H b Hb. split; [eapply acked_durable; eauto|apply patched_base]. Qed.
+
+(* consumer-visible extents: full statement, its refutation (concatenated batches)
+   and the statement on record sets that hold a single frame *)
+Definition visible_statement : Prop :=
+  forall c evs s, run (init c) evs = Some s -> s_live s = true ->
+    chain_ext (s_start s) (flat_map visible (log s)) (s_next s).
+
+Lemma chain_ext_single lo bs hi :
+  Forall (fun b => concatenated (b_bytes b) = false) bs -> chain lo bs hi ->
+  chain_ext lo (flat_map visible bs) hi.
+Proof.
+  revert lo; induction bs as [|b bs IH]; intros lo F C; cbn [flat_map chain_ext]; [exact C|].
+  inversion F as [|? ? Fb Fr]; subst. cbn [chain] in C. destruct C as (C1 & C2 & C3).
+  unfold visible, trailing. rewrite Fb. cbn [app chain_ext]. repeat split; auto.
+Qed.
+
+Theorem visible_partial c evs s :
+  run (init c) evs = Some s -> s_live s = true ->
+  Forall (fun b => concatenated (b_bytes b) = false) (log s) ->
+  chain_ext (s_start s) (flat_map visible (log s)) (s_next s).
+Proof. intros H Lv F. apply chain_ext_single; [exact F|]. eapply assigned_chain; eauto. Qed.
+
+Lemma chain_extb_ok lo xs hi : chain_ext lo xs hi -> chain_extb lo xs hi = true.
+Proof.
+  revert lo; induction xs as [|[b d] xs IH]; intros lo; cbn [chain_ext chain_extb]; [lia|].
+  intros (A & B & C). rewrite (IH _ C). lia.
+Qed.
+
+(* two-frame record set: frame 1 = 2 records, frame 2 = 1 record (61-byte headers) *)
+Definition hdr61 (bl lod cnt : Z) : bytes :=
+  [0;0;0;0;0;0;0;0; 0;0;0;bl; 0;0;0;0; 2; 0;0;0;0; 0;0; 0;0;0;lod] ++ repeat 0 30 ++ [0;0;0;cnt].
+Definition cat_raw : bytes := hdr61 49 1 2 ++ hdr61 49 0 1.
+Definition visible_witness : list event := [EAppend 0%nat cat_raw].
+
+Theorem visible_refuted : ~ visible_statement.
+Proof.
+  intros V. specialize (V (mkCfg 0 0 0 1) visible_witness).
+  destruct (run (init (mkCfg 0 0 0 1)) visible_witness) as [s|] eqn:E; [|vm_compute in E; discriminate].
+  specialize (V s eq_refl). assert (s_live s = true) as Lv by (vm_compute in E; inversion E; reflexivity).
+  apply V in Lv. apply chain_extb_ok in Lv. vm_compute in E. inversion E; subst. vm_compute in Lv. discriminate.
+Qed.
+
+(* ------------------------------------------------------------------ C05 *)
+Lemma s3_end_ge seg idx : 0 <= fold_right (fun kv a => if has (fst kv) idx then Z.max (last_off (snd kv) + 1) a else a) 0 seg.
+Proof. induction seg as [|[k bs] seg IH]; cbn [fold_right fst snd]; [lia|]. destruct (has k idx); lia. Qed.
+
+Lemma s3_end_in seg idx k bs : In (k, bs) seg -> has k idx = true ->
+  last_off bs + 1 <= fold_right (fun kv a => if has (fst kv) idx then Z.max (last_off (snd kv) + 1) a else a) 0 seg.
+Proof.
+  induction seg as [|[k' bs'] seg IH]; intros I Hk; [contradiction|]. cbn [fold_right fst snd].
+  destruct I as [E|I].
+  - inversion E; subst. rewrite Hk. lia.
+  - specialize (IH I Hk). destruct (has k' idx); lia.
+Qed.
+
+Lemma pubok_s3_end bnd s v : pubok bnd (s_seg s) (s_idx s) v -> v <= s3_end s.
+Proof.
+  intros [H|(k & bs & A & B & _ & D)]; unfold s3_end.
+  - pose proof (s3_end_ge (s_seg s) (s_idx s)). lia.
+  - pose proof (s3_end_in _ _ _ _ (lookup_in _ _ _ A) B). lia.
+Qed.
+
+Theorem not_ahead c evs s : run (init c) evs = Some s -> s_store s <= s3_end s.
+Proof.
+  intros H. pose proof (reach_inv _ _ _ H) as I. unfold Inv in I. destruct (s_live s).
+  - destruct I as (h & I). eapply pubok_s3_end. apply (li_store _ _ I).
+  - eapply pubok_s3_end. apply (di_store _ I).
+Qed.
+
+Theorem pubs_not_ahead c evs s : run (init c) evs = Some s -> forall v, In v (s_pubs s) -> v <= s3_end s.
+Proof.
+  intros H v Hv. pose proof (reach_inv _ _ _ H) as I. unfold Inv in I. destruct (s_live s).
+  - destruct I as (h & I). eapply pubok_s3_end. apply (li_pubs _ _ I). exact Hv.
+  - eapply pubok_s3_end. apply (di_pubs _ I). exact Hv.
+Qed.
+
+Definition monotone_statement : Prop :=
+  forall c evs s, run (init c) evs = Some s -> nondecreasing_newest_first (s_pubs s).
+
+Lemma nondecb_ok l : nondecreasing_newest_first l -> nondecb l = true.
+Proof.
+  induction l as [|x l IH]; cbn [nondecreasing_newest_first nondecb]; [reflexivity|].
+  intros [A B]. rewrite (IH B). destruct l; [reflexivity|lia].
+Qed.
+
+Definition one_raw (m : Z) : bytes := hdr61 49 0 1 ++ [m].
+Definition reorder_witness : list event :=
+  [EAppend 0%nat (one_raw 1); EFlushBegin 0%nat; EUpSeg 0%nat true; EUpIdx 0%nat true; ECommit 0%nat;
+   EAppend 1%nat (one_raw 2); EFlushBegin 1%nat; EUpSeg 1%nat true; EUpIdx 1%nat true; ECommit 1%nat;
+   ECallback 1%nat true; ECallback 0%nat true].
+
+Theorem monotone_refuted : ~ monotone_statement.
+Proof.
+  intros M. specialize (M (mkCfg 0 0 0 1) reorder_witness).
+  destruct (run (init (mkCfg 0 0 0 1)) reorder_witness) as [s|] eqn:E; [|vm_compute in E; discriminate].
+  specialize (M s eq_refl). apply nondecb_ok in M. vm_compute in E. inversion E; subst. vm_compute in M. discriminate.
+Qed.
+Theorem no_reuse c evs s :
+  run (init c) evs = Some s -> s_live s = true ->
+  (forall b, In b (s_acked s) -> b_last b < s_next s) /\
+  (forall v, In v (s_pubs s) -> v <= s_next s) /\ s_store s <= s_next s.
+Proof.
+  intros H Lv. pose proof (reach_inv _ _ _ H) as I. unfold Inv in I. rewrite Lv in I.
+  destruct I as (h & I). destruct (linv_bounds _ _ I) as (A & B & C). repeat split.
+  - intros b Hb. specialize (B b (li_acked _ _ I b Hb)). lia.
+  - intros v Hv. specialize (C v (proj1 (li_pubs _ _ I v Hv))). lia.
+  - specialize (C _ (proj1 (li_store _ _ I))). lia.
+Qed.
+
+(* every batch acknowledged before a crash is, in any later live state, durable and
+   below the next offset to be assigned; a new append gets exactly s_next as base *)
+Theorem restart_complete c evs1 evs2 s1 s :
+  run (init c) evs1 = Some s1 -> run s1 evs2 = Some s -> s_live s = true ->
+  forall b, In b (s_acked s1) -> durable s b /\ b_last b < s_next s.
+Proof.
+  intros H1 H2 Lv b Hb.
+  assert (run (init c) (evs1 ++ evs2) = Some s) as H.
+  { clear -H1 H2. revert H1. generalize (init c). induction evs1 as [|e r IH]; intros s0 H1; cbn [app run] in *.
+    - inversion H1; subst. exact H2.
+    - destruct (step s0 e); [|discriminate]. apply IH. exact H1. }
+  split; [exact (acked_survives _ _ _ _ _ H1 H2 b Hb)|].
+  apply (proj1 (no_reuse _ _ _ H Lv)). exact (run_acked_incl _ _ _ H2 b Hb).
+Qed.
+
+(* ------------------------------------------------------------------ C05: monotone when callbacks do not overlap *)
+Definition is_cb (p : pc) : bool := match p with PCb _ _ _ => true | _ => false end.
+Definition cb_serial (s : state) : Prop :=
+  forall t t', is_cb (s_pcs s t) = true -> is_cb (s_pcs s t') = true -> t = t'.
+
+(* runs of one broker incarnation in which at most one onFlush callback is pending at
+   any time (the complement of the hw-callback-reorder finding's schedule class) *)
+Inductive reach_serial (c : cfg) : state -> Prop :=
+| RS_init : reach_serial c (init c)
+| RS_step s e s' : reach_serial c s -> e <> ECrash -> step s e = Some s' -> cb_serial s' -> reach_serial c s'.
+
+Record MInv (s : state) : Prop := mkMInv {
+  mi_live : s_live s = true;
+  mi_hd : hd 0 (s_pubs s) = s_store s;
+  mi_cb : forall t o b v, s_pcs s t = PCb o b v -> s_clast s = Some v;
+  mi_cl : forall v, s_clast s = Some v -> s_store s <= v + 1;
+  mi_nd : nondecreasing_newest_first (s_pubs s)
+}.
+
+Lemma nd_cons x l : nondecreasing_newest_first l -> hd 0 l <= x -> (l = [] -> True) ->
+  match l with [] => True | y :: _ => y <= x end /\ nondecreasing_newest_first l.
+Proof. intros N H _. split; [|exact N]. destruct l; [exact I|exact H]. Qed.
+
+Lemma serial_others s t : cb_serial s -> is_cb (s_pcs s t) = true ->
+  forall t', t' <> t -> is_cb (s_pcs s t') = false.
+Proof.
+  intros S C t' N. destruct (is_cb (s_pcs s t')) eqn:E; [|reflexivity]. exfalso. apply N. now apply S.
+Qed.
+
+Lemma minv_step c s e s' :
+  reach_serial c s -> (exists h, LInv h s) -> MInv s -> e <> ECrash -> step s e = Some s' -> cb_serial s' -> MInv s'.
+Proof.
+  intros _ (h & I) M NC H S. destruct M as [Lv Hd Cb Cl Nd].
+  destruct e; cbn [step] in H; rewrite Lv in H; cbn [negb] in H; try discriminate; try congruence.
+  - (* EAppend *)
+    destruct (s_pcs s t) eqn:Pt; try discriminate.
+    destruct (parse_hdr raw) as [[lod cnt]|]; [|inversion H; subst; constructor; auto].
+    destruct (should_flush _ _ && _); inversion H; subst; constructor; cbn; auto.
+    all: intros t0 o b v E; destruct (Nat.eq_dec t0 t) as [->|N];
+      [rewrite upd_same in E; discriminate|rewrite upd_other in E by assumption; eauto].
+  - (* EFlushBegin *)
+    destruct (s_pcs s t) eqn:Pt; try discriminate. destruct (s_owner s); try discriminate.
+    destruct (s_buf s).
+    + destruct (s_clast s) as [v|] eqn:Ec; inversion H; subst; constructor; cbn; auto.
+      * intros t0 o b0 v0 E; destruct (Nat.eq_dec t0 t) as [->|N];
+          [rewrite upd_same in E; inversion E; subst; exact Ec|rewrite upd_other in E by assumption; rewrite Ec; eauto].
+      * rewrite Ec. exact Cl.
+      * intros t0 o b0 v0 E; destruct (Nat.eq_dec t0 t) as [->|N];
+          [rewrite upd_same in E; discriminate|rewrite upd_other in E by assumption; rewrite Ec; eauto].
+      * rewrite Ec. exact Cl.
+    + inversion H; subst; constructor; cbn; auto.
+      intros t0 o bb v0 E; destruct (Nat.eq_dec t0 t) as [->|N];
+        [rewrite upd_same in E; discriminate|rewrite upd_other in E by assumption; eauto].
+  - (* EUpSeg *)
+    destruct (s_pcs s t) as [| |o b sg ix| |] eqn:Pt; try discriminate. destruct sg; try discriminate.
+    inversion H; subst; constructor; cbn; auto.
+    intros t0 o0 b0 v0 E; destruct (Nat.eq_dec t0 t) as [->|N];
+      [rewrite upd_same in E; discriminate|rewrite upd_other in E by assumption; eauto].
+  - (* EUpIdx *)
+    destruct (s_pcs s t) as [| |o b sg ix| |] eqn:Pt; try discriminate. destruct ix; try discriminate.
+    inversion H; subst; constructor; cbn; auto.
+    intros t0 o0 b0 v0 E; destruct (Nat.eq_dec t0 t) as [->|N];
+      [rewrite upd_same in E; discriminate|rewrite upd_other in E by assumption; eauto].
+  - (* ECommit: the new callback is the only one *)
+    destruct (s_pcs s t) as [| |o b sg ix| |] eqn:Pt; try discriminate.
+    destruct sg; try discriminate. destruct ix; try discriminate.
+    inversion H; subst; clear H.
+    assert (forall v, s_clast s = Some v -> v + 1 <= last_off (s_fl s) + 1) as Up.
+    { intros v Ev. destruct (linv_bounds _ _ I) as (_ & _ & P).
+      specialize (P _ (proj1 (li_clast _ _ I v Ev))).
+      pose proof (li_pcs _ _ I t) as Pb. rewrite Pt in Pb. cbn in Pb. destruct Pb as (Ow & _).
+      destruct (li_own _ _ I _ Ow) as (Nfl & _).
+      pose proof (li_pend _ _ I) as Cp. apply chain_app in Cp as (mid & C1 & _).
+      destruct (chain_last _ _ _ C1 Nfl) as (_ & L & _). lia. }
+    constructor; cbn; auto.
+    + intros t0 o0 b0 v0 E. destruct (Nat.eq_dec t0 t) as [->|N].
+      * rewrite upd_same in E. inversion E; subst. reflexivity.
+      * exfalso. pose proof (serial_others _ t S) as K. cbn in K. rewrite upd_same in K.
+        specialize (K eq_refl t0 N). rewrite E in K. discriminate.
+    + intros v E. inversion E; subst. destruct (s_clast s) as [v0|] eqn:Ec.
+      * specialize (Cl _ eq_refl). specialize (Up _ eq_refl). lia.
+      * destruct (linv_bounds _ _ I) as (_ & _ & P). specialize (P _ (proj1 (li_store _ _ I))).
+        pose proof (li_pcs _ _ I t) as Pb. rewrite Pt in Pb. cbn in Pb. destruct Pb as (Ow & _).
+        destruct (li_own _ _ I _ Ow) as (Nfl & _).
+        pose proof (li_pend _ _ I) as Cp. apply chain_app in Cp as (mid & C1 & _).
+        destruct (chain_last _ _ _ C1 Nfl) as (_ & L & _). lia.
+  - (* EFailReset *)
+    destruct (s_pcs s t) as [| |o b sg ix| |] eqn:Pt; try discriminate.
+    assert (s_pcs s' = upd (s_pcs s) t (PRet b false) /\ s_live s' = true /\ s_pubs s' = s_pubs s /\
+            s_store s' = s_store s /\ s_clast s' = s_clast s) as (E1 & E2 & E3 & E4 & E5).
+    { destruct sg, ix; try discriminate; inversion H; subst; cbn; auto. }
+    constructor; rewrite ?E1, ?E2, ?E3, ?E4, ?E5; auto.
+    intros t0 o0 b0 v0 E; destruct (Nat.eq_dec t0 t) as [->|N];
+      [rewrite upd_same in E; discriminate|rewrite upd_other in E by assumption; eauto].
+  - (* ECallback *)
+    destruct (s_pcs s t) as [| | |o b v|] eqn:Pt; try discriminate.
+    pose proof (Cb _ _ _ _ Pt) as Ec. pose proof (Cl _ Ec) as Sv.
+    inversion H; subst; clear H. constructor; cbn; auto.
+    + destruct ok; [reflexivity|exact Hd].
+    + intros t0 o0 b0 v0 E; destruct (Nat.eq_dec t0 t) as [->|N];
+        [rewrite upd_same in E; destruct o; discriminate|rewrite upd_other in E by assumption; eauto].
+    + intros v0 E. destruct ok; [|auto]. rewrite Ec in E. inversion E; subst. lia.
+    + destruct ok; [|exact Nd]. cbn [nondecreasing_newest_first]. split; [|exact Nd].
+      destruct (s_pubs s) as [|y r]; [exact Logic.I|]. cbn in Hd. lia.
+  - (* ERespond *)
+    destruct (s_pcs s t) as [| | | |b ok] eqn:Pt; try discriminate.
+    inversion H; subst; constructor; cbn; auto.
+    intros t0 o0 b0 v0 E; destruct (Nat.eq_dec t0 t) as [->|N];
+      [rewrite upd_same in E; discriminate|rewrite upd_other in E by assumption; eauto].
+Qed.
+
+Lemma reach_serial_inv c s : reach_serial c s -> (exists h, LInv h s) /\ MInv s.
+Proof.
+  induction 1 as [|s e s' R [IL IM] NC St S].
+  - split.
+    + pose proof (init_inv c) as I. unfold Inv in I. exact I.
+    + constructor; cbn; auto; try discriminate.
+  - assert (MInv s') as M by (eapply minv_step; eauto). split; [|exact M].
+    destruct IL as (h & IL). pose proof (step_inv s e s') as K. unfold Inv in K at 1.
+    rewrite (mi_live _ IM) in K. specialize (K (ex_intro _ h IL) St). unfold Inv in K.
+    rewrite (mi_live _ M) in K. exact K.
+Qed.
+
+Theorem monotone_partial c s : reach_serial c s -> nondecreasing_newest_first (s_pubs s).
+Proof. intros R. apply (mi_nd _ (proj2 (reach_serial_inv _ _ R))). Qed.
